@@ -695,7 +695,7 @@ func main() {
 	for _, p := range []struct {
 		name string
 		f    func(bool) *result
-	}{{"target-function", targetPart}, {"target-on-pruned-branch", prunedPart}, {"bits-decoding", bitsPart}, {"real-chain", chainPart}, {"own-branch-target", forkPart}, {"activation-boundary", boundaryPart}, {"demoted-real-chain", demotedPart}, {"position-in-tree", positionPart}, {"small-number-arithmetic", precisionPart}} {
+	}{{"target-function", targetPart}, {"target-on-pruned-branch", prunedPart}, {"bits-decoding", bitsPart}, {"real-chain", chainPart}, {"own-branch-target", forkPart}, {"activation-boundary", boundaryPart}, {"demoted-real-chain", demotedPart}, {"position-in-tree", positionPart}, {"small-number-arithmetic", precisionPart}, {"mark-unmark-in-pruned-real-chain", markPrunedPart}} {
 		t0 := time.Now()
 		r := p.f(thorough)
 		parts[p.name] = r
